@@ -2,10 +2,24 @@
 (***************************************************************************)
 (* Trace validation of the real conffile.FileConfig against FileConfig.    *)
 (* Events (harness/c18):                                                   *)
-(*   Reset    pre suf excl nobs file mt   fresh directory, file written    *)
+(*   Reset    pre suf excl file mt        fresh directory, file written    *)
+(*            exists penv libdefs         (exists = FALSE: no file yet);   *)
+(*                                        penv: the process environment as *)
+(*                                        far as it names keys of the      *)
+(*                                        history; libdefs: what the public*)
+(*                                        ApplyDefault() puts into an      *)
+(*                                        empty configuration              *)
+(*   ObsAdd   name id                     ConfigObserver.Add(name, object  *)
+(*                                        number id) -- before and after   *)
+(*                                        the constructor, between polls,  *)
+(*                                        inside a poll taken apart        *)
+(*   Env      k v set                     the environment variable k set   *)
+(*                                        to v / unset                     *)
 (*   New      snap notes                  constructor (its first reload)   *)
-(*   Edit     lines parsed mt             external writer replaced the     *)
-(*                                        file and set its mtime           *)
+(*   Edit     lines parsed mt             external writer replaced (or     *)
+(*                                        created) the file, set its mtime *)
+(*   Delete                               external writer deleted the file *)
+(*                                        or renamed it away               *)
 (*   Reload   snap notes                  one poll: map afterwards and     *)
 (*                                        what each observer was shown     *)
 (*   RlStat                               a poll taken apart: its stat     *)
@@ -23,6 +37,11 @@
 (*            reload exactly as MC_FileConfig interleaves them.            *)
 (*   Get      g k d deli ret [tab h0]     one typed getter call            *)
 (*   SetValues kv after mt                write-back; the file afterwards  *)
+(*   SetValuesGone kv exists              write-back while the file is not *)
+(*                                        there: still not there           *)
+(*   RlParseFail                          the parser failed (the file      *)
+(*                                        vanished after the stat)         *)
+(*   RlAbort  snap notes                  ... and the poll returned        *)
 (*   CGet     k ret lo hi                 a getter on a reader goroutine   *)
 (*                                        that ran between the end of      *)
 (*                                        reload lo and the start of       *)
@@ -30,7 +49,9 @@
 (*   CKeys    ret lo hi                   GetKeys on a reader goroutine    *)
 (*   CEnd     reads                       the child process ended normally *)
 (* A child process that died ("CFatal") and a panic ("Panic") have no      *)
-(* action.  snap / notes entries are lists of <<key, GetValue(key)>>.      *)
+(* action.  snap is a list of <<key, GetValue(key)>>; notes is the list of *)
+(* calls the observers received during the poll: [o |-> object number,     *)
+(* s |-> the snap it took inside the call].                                *)
 (***************************************************************************)
 EXTENDS FileConfig, TraceLib
 
@@ -49,25 +70,47 @@ Stamp2(e) == <<e.mt[1], e.mt[2]>>
 TraceReset ==
   /\ Step("Reset")
   /\ LET e == Trace[l] IN
-       /\ dir' = (Conf :> 1) /\ data' = <<e.file>> /\ mt' = <<Stamp2(e)>> /\ fdt' = <<>>
+       /\ IF e.exists THEN dir' = (Conf :> 1) /\ data' = <<e.file>> /\ mt' = <<Stamp2(e)>>
+                      ELSE dir' = <<>> /\ data' = <<>> /\ mt' = <<>>
+       /\ fdt' = <<>>
        /\ sec' = 0 /\ modn' = 1 /\ w' = Idle
-       /\ mem' = <<>> /\ lastSeen' = <<-1, -1>> /\ note' = <<>> /\ nnote' = 0
-       /\ rl' = [pc |-> "idle", snap |-> <<>>, todo |-> {}, dirty |-> FALSE]
+       /\ mem' = <<>> /\ lastSeen' = Never /\ note' = NoNote /\ nnote' = 0
+       /\ rl' = RlIdle
        /\ busy' = FALSE /\ fatal' = FALSE /\ fresh' = FALSE
-       /\ opt' = [pre |-> e.pre, suf |-> e.suf, excl |-> Range(e.excl), nobs |-> e.nobs]
+       /\ opt' = [pre |-> e.pre, suf |-> e.suf, excl |-> Range(e.excl), reg |-> <<>>, lst |-> <<>>,
+                  env |-> Fn(e.penv), defs |-> Fn(e.libdefs)]
        /\ wkv' = <<>>
        /\ hist' = <<>> /\ pm' = <<>>
 
-\* one poll.  If the stamp changed every observer is called exactly once and is shown the
-\* merged map; a poll that leaves the map as it was may also stay silent.
+\* the calls of one notification round: one call per registered name, to the observer that
+\* is registered under it now, each shown map m
+NotesOK(notes, m) ==
+  /\ Len(notes) = Cardinality(DOMAIN opt.reg)
+  /\ \A i \in 1..Len(notes) : Range(notes[i].s) = SnapOf(m)
+  /\ \A x \in Ids \cup {notes[i].o : i \in 1..Len(notes)} :
+        Cardinality({i \in 1..Len(notes) : notes[i].o = x}) = Cardinality({n \in DOMAIN opt.reg : opt.reg[n] = x})
+
+TraceObsAdd ==
+  /\ Step("ObsAdd")
+  /\ ObsAdd(Trace[l].name, Trace[l].id)
+  /\ UNCHANGED <<hist, pm>>
+
+TraceEnv ==
+  /\ Step("Env")
+  /\ LET e == Trace[l] IN
+       opt' = [opt EXCEPT !.env = IF e.set THEN (e.k :> e.v) @@ opt.env ELSE Restrict(opt.env, DOMAIN opt.env \ {e.k})]
+  /\ UNCHANGED <<fsvars, mem, lastSeen, note, nnote, rl, busy, fatal, fresh, wkv, hist, pm>>
+
+\* one poll.  If the stamp changed every registered observer is called (NotesOK) and is shown the
+\* merged map; a poll that leaves the map as it was may also stay silent.  A poll that finds
+\* the file missing tells nobody.
 ReloadEv(name) ==
   /\ Step(name)
   /\ LET e == Trace[l] IN
        /\ ReloadAtomic
        /\ Range(e.snap) = SnapOf(mem') /\ Len(e.snap) = Cardinality(DOMAIN mem')
        /\ IF Changed
-            THEN \/ /\ Len(e.notes) = opt.nobs
-                    /\ \A i \in 1..Len(e.notes) : Range(e.notes[i]) = SnapOf(mem')
+            THEN \/ NotesOK(e.notes, mem')
                  \/ /\ e.notes = <<>> /\ mem' = mem
             ELSE e.notes = <<>>
        /\ hist' = Append(hist, mem')
@@ -80,9 +123,15 @@ TraceEdit ==
   /\ Step("Edit")
   /\ LET e == Trace[l] IN
        /\ e.parsed = e.lines              \* the harness's reader of the syntax agrees with its writer
-       /\ Stamp2(e) # Stamp(Conf)         \* (harness obligation: distinct modification times)
+       /\ Exists(Conf) => Stamp2(e) # Stamp(Conf)         \* (harness obligation: distinct modification times)
+       /\ Stamp2(e) # lastSeen            \* (... also from the version remembered while the file was away)
        /\ ExtEdit(e.lines, Stamp2(e))
        /\ UNCHANGED <<modn, hist, pm>>
+
+TraceDelete ==
+  /\ Step("Delete")
+  /\ ExtDelete
+  /\ UNCHANGED <<modn, hist, pm>>
 
 HashOK(e, S) ==
   /\ \A t \in S : \E i \in 1..Len(e.tab) : e.tab[i][1] = t
@@ -110,6 +159,12 @@ TraceSetValues ==
   /\ LET e == Trace[l] IN SvAtomic(Fn(e.kv), e.after, Stamp2(e))
   /\ UNCHANGED <<hist, pm>>
 
+TraceSetValuesGone ==
+  /\ Step("SetValuesGone")
+  /\ ~Trace[l].exists
+  /\ SvGone
+  /\ UNCHANGED <<hist, pm>>
+
 \* a getter that ran concurrently with the reloading goroutine returned the value of
 \* one of the versions that can have been current while it ran
 TraceCGet ==
@@ -117,7 +172,7 @@ TraceCGet ==
   /\ LET e == Trace[l] IN
        /\ e.lo <= e.hi /\ e.hi < Len(hist)
        /\ \E j \in e.lo..e.hi :
-            e.ret = (IF e.k \in DOMAIN hist[j + 1] THEN Trim(hist[j + 1][e.k]) ELSE <<>>)
+            e.ret = (IF e.k \in DOMAIN hist[j + 1] THEN Trim(hist[j + 1][e.k]) ELSE EnvVal(e.k))
   /\ UNCHANGED <<vars, hist, pm>>
 
 TraceCKeys ==
@@ -148,6 +203,21 @@ TraceRlParse ==
   /\ SnapOf(Fn(Trace[l].m)) = SnapOf(Parsed)
   /\ UNCHANGED <<hist, pm>>
 
+\* the file vanished after the stat: the parser failed, the poll returns with the map as it was
+TraceRlParseFail ==
+  /\ Step("RlParseFail")
+  /\ RlParseFail
+  /\ UNCHANGED <<hist, pm>>
+
+TraceRlAbort ==
+  /\ Step("RlAbort")
+  /\ rl.pc = "idle"
+  /\ LET e == Trace[l] IN
+       /\ Range(e.snap) = SnapOf(mem) /\ Len(e.snap) = Cardinality(DOMAIN mem)
+       /\ e.notes = <<>>
+  /\ hist' = Append(hist, mem)
+  /\ UNCHANGED <<vars, pm>>
+
 TraceRlApplied ==
   /\ Step("RlApplied")
   /\ RlApplyAll
@@ -161,15 +231,15 @@ TraceRlEnd ==
   /\ RlNotify
   /\ LET e == Trace[l] IN
        /\ Range(e.snap) = SnapOf(mem) /\ Len(e.snap) = Cardinality(DOMAIN mem)
-       /\ \/ /\ Len(e.notes) = opt.nobs
-             /\ \A i \in 1..Len(e.notes) : Range(e.notes[i]) = SnapOf(mem)
+       /\ \/ NotesOK(e.notes, mem)
           \/ /\ e.notes = <<>> /\ mem = pm
   /\ hist' = Append(hist, mem)
   /\ pm' = pm
 
-TraceNext == (TraceReset \/ TraceNew \/ TraceReload \/ TraceEdit \/ TraceGet \/ TraceSetValues
+TraceNext == (TraceReset \/ TraceNew \/ TraceReload \/ TraceEdit \/ TraceDelete \/ TraceGet \/ TraceSetValues
+              \/ TraceSetValuesGone \/ TraceObsAdd \/ TraceEnv
               \/ TraceCGet \/ TraceCKeys \/ TraceCEnd
-              \/ TraceRlStat \/ TraceRlParse \/ TraceRlApplied \/ TraceRlEnd) /\ InvAll'
+              \/ TraceRlStat \/ TraceRlParse \/ TraceRlParseFail \/ TraceRlAbort \/ TraceRlApplied \/ TraceRlEnd) /\ InvAll'
 
 TraceSpec == TraceInit /\ [][TraceNext]_tvars
 
